@@ -60,6 +60,10 @@ def plan(tier: str, seed: int) -> list[dict]:
     for j, (bmb, ss) in enumerate(inter):
         for r in range(4 if tier == "quick" else 30):
             cases.append({"k": "chunks", "i": j * 100 + r, "bmb": bmb, "ss": ss, "weight": 6})
+    # non-differencing disks need block count + interleaved bitmap slots BAT entries, not whole chunks: disks of ~128 GiB whose
+    # exact table just fits a whole number of MiB while the whole-chunk count would not
+    for j, (bmb, ss, n_) in enumerate([(2, 512, 131000), (1, 4096, 131069), (2, 512, 130945), (1, 4096, 98305)][: 2 if tier == "quick" else 4]):
+        cases.append({"k": "tightbat", "i": 3000 + j, "bmb": bmb, "ss": ss, "n": n_, "weight": 10})
     for i in range(8 if tier == "quick" else 200):
         cases.append({"k": "twin", "i": i, "weight": 4})
     for f in ("dynamic.vhdx.gz", "fixed.vhdx.gz"):
@@ -157,7 +161,17 @@ def run(case: dict, ctx) -> dict:
     spb = bs // ss
     ratio = (2**23 * ss) // bs
     extra = []
-    if k == "rand":
+    if k == "tightbat":
+        n = case["n"]
+        states = [0] * n
+        hot_tb = {0, 1, n - 1, n - 2, ratio - 1, ratio, n // 2} | {rng.randrange(n) for _ in range(6)}
+        for b_ in hot_tb:
+            if 0 <= b_ < n:
+                states[b_] = rng.choice([6, 6, 2])
+        tail = rng.choice([0, rng.randrange(0, spb)])
+        placement = "shuffle"
+        extra = [b_ * bs for b_ in sorted(hot_tb) if 0 <= b_ < n]
+    elif k == "rand":
         n = case["n"]
         states = None
         tail = rng.choice([0, 0, rng.randrange(0, spb)])
